@@ -4,9 +4,12 @@ UNITS = {
     "wire_decode": ["C03", "C16"],
     "wire_codec": ["C04"],
     "zone_merge": ["C12"],
+    "zone_lookup": ["C02"],
 }
 # property -> clauses of the statement that no contract decides (reported in the evidence)
 UNDECIDED_CLAUSES = {
+    "C02": ["that every Zone reaching resolve satisfies the representation invariant tree_wf (precondition; builders insert/insert_wildcard/merge not yet proved to establish it)",
+            "corollaries named in the statement (existing name => never NameError, ...) are consequences of lookup_ok; not stated as separate lemmas"],
     "C12": ["children present on both sides: only 'merged by the same function' (recursion verified for termination and frame), no path-level union statement",
             "load_zone_configuration: directory listing sorted, hosts merged last into the root zone (tokio fs)",
             "'each zone answers every question with the union': follows from C02's lookup being a function of these maps; not stated as a lemma"],
